@@ -18,6 +18,7 @@ global size_of usize == 8;
 
 #[verifier::external_body]
 struct SError { _p: u8 }
+//@ stubs sst/src/lib.rs -> SError
 #[verifier::external_body]
 struct Sink { _p: u8 }
 impl Sink { uninterp spec fn bytes(&self) -> Seq<u8>; }
